@@ -145,3 +145,227 @@ pub fn err_kind(e: &ProofError) -> &'static str {
         ProofError::InvalidBlake2b => "blake",
     }
 }
+
+// ---------------------------------------------------------------------------------------------------------------
+// C05: systematic single-component mutation of accepted triples (runs over both groups)
+// ---------------------------------------------------------------------------------------------------------------
+use tari_bulletproofs_plus::traits::{Compressable, FixedBytesRepr};
+
+fn verify_caught(ts: &mut [Transcript], stmts: &[Stmt], proofs: &[Proof], action: VerifyAction) -> Result<bool, ()> {
+    let r = std::panic::catch_unwind(std::panic::AssertUnwindSafe(|| Proof::verify_batch(ts, stmts, proofs, action)));
+    match r {
+        Ok(v) => Ok(v.is_ok()),
+        Err(_) => Err(()),
+    }
+}
+
+/// statement with one field replaced (through the public fields, as a caller can)
+fn stmt_variant(base: &Stmt, f: impl FnOnce(&mut Stmt)) -> Stmt {
+    let mut s = base.clone();
+    f(&mut s);
+    s
+}
+
+pub fn c05_run(opts: &crate::Opts, out: &mut Out) {
+    let mut rng = chacha(opts.seed, 5);
+    let mut classes = std::collections::BTreeSet::new();
+    let mut nmut = 0u64;
+    let configs: Vec<(usize, usize, usize, usize, bool)> = if opts.thorough {
+        vec![(2, 1, 1, 1, true), (2, 2, 4, 2, false), (4, 1, 2, 3, true), (8, 2, 2, 1, false), (8, 4, 8, 6, false), (16, 1, 1, 4, false), (64, 1, 2, 2, true), (64, 2, 2, 1, false), (1, 2, 2, 5, false), (32, 4, 4, 2, false)]
+    } else {
+        vec![(2, 1, 1, 1, true), (4, 2, 4, 3, false), (8, 4, 4, 2, false), (64, 1, 2, 2, true), (1, 2, 2, 6, false)]
+    };
+    let limit_r = if GROUP == "ristretto" && !opts.thorough { 3 } else { usize::MAX };
+    for (ci, (n, m, cap, t, seeded)) in configs.into_iter().enumerate() {
+        if ci >= limit_r {
+            break;
+        }
+        let inst = random_inst(n, m, cap, t, 4 + ci, seeded, &mut rng);
+        let key = format!("{} {}", GROUP, inst.describe());
+        let stmt = inst.statement();
+        let proof = inst.prove(&mut rng).expect("prove");
+        let bytes = proof.to_bytes();
+        let base_ok = verify_caught(&mut [inst.transcript()], &[stmt.clone()], &[proof.clone()], VerifyAction::VerifyOnly);
+        out.oracle("C05:base-accepted", base_ok == Ok(true), &key, "base triple not accepted");
+        let mut check = |out: &mut Out, what: &str, tr: Transcript, s: &Stmt, pbytes: Option<&[u8]>| {
+            nmut += 1;
+            classes.insert((n, m, t, what.split('[').next().unwrap().to_string()));
+            let mkey = format!("{} mutate={}", key, what);
+            let p = match pbytes {
+                None => proof.clone(),
+                Some(b) => match std::panic::catch_unwind(|| Proof::from_bytes(b)) {
+                    Ok(Ok(p)) => p,
+                    Ok(Err(_)) => return, // rejected by the decoder: an error value, as required
+                    Err(_) => {
+                        out.oracle("C05:no-panic", false, &mkey, "from_bytes panicked");
+                        return;
+                    },
+                },
+            };
+            for action in [VerifyAction::VerifyOnly, VerifyAction::RecoverAndVerify] {
+                match verify_caught(&mut [tr.clone()], std::slice::from_ref(s), std::slice::from_ref(&p), action) {
+                    Err(()) => out.oracle("C05:no-panic", false, &mkey, "verify_batch panicked"),
+                    Ok(ok) => out.oracle("C05:altered-triple-rejected", !ok, &format!("{} action={:?}", mkey, action), &format!("proof={}", hex(&p.to_bytes()))),
+                }
+            }
+        };
+        // --- proof scalars and points, by position in the encoding
+        let nel = (bytes.len() - 1) / 32;
+        for el in 0..nel {
+            let is_scalar = el < t || el == t + 3 || el == t + 4;
+            let name = if el < t { format!("d1[{}]", el) } else if el == t { "A".into() } else if el == t + 1 { "A1".into() } else if el == t + 2 { "B".into() } else if el == t + 3 { "r1".into() } else if el == t + 4 { "s1".into() } else if (el - t - 5) % 2 == 0 { format!("L[{}]", (el - t - 5) / 2) } else { format!("R[{}]", (el - t - 5) / 2) };
+            let off = 1 + 32 * el;
+            let mut variants: Vec<(String, [u8; 32])> = vec![];
+            let cur: [u8; 32] = bytes[off..off + 32].try_into().unwrap();
+            if is_scalar {
+                let s = Scalar::from_canonical_bytes(cur).unwrap();
+                variants.push(("+1".into(), (s + Scalar::ONE).to_bytes()));
+                variants.push(("random".into(), Scalar::random(&mut rng).to_bytes()));
+                variants.push(("zero".into(), [0u8; 32]));
+                variants.push(("negated".into(), (-s).to_bytes()));
+            } else {
+                let mut flip = cur;
+                flip[5] ^= 0x10;
+                variants.push(("bitflip".into(), flip));
+                variants.push(("other-point".into(), *other_point(el as u64 + 100).compress().as_fixed_bytes()));
+                variants.push(("identity".into(), [0u8; 32]));
+                variants.push(("undecodable".into(), undecodable()));
+                // another element of the same proof
+                let other = if el == t { t + 1 } else { t };
+                variants.push(("swapped-in".into(), bytes[1 + 32 * other..1 + 32 * other + 32].try_into().unwrap()));
+            }
+            for (vn, v) in variants {
+                if v == cur {
+                    continue;
+                }
+                let mut b = bytes.clone();
+                b[off..off + 32].copy_from_slice(&v);
+                check(out, &format!("{}:{}", name, vn), inst.transcript(), &stmt, Some(&b));
+            }
+        }
+        // --- number of rounds, extension tag
+        let mut longer = bytes.clone();
+        longer.extend_from_slice(&bytes[bytes.len() - 64..]);
+        check(out, "rounds+1", inst.transcript(), &stmt, Some(&longer));
+        if nel - t - 5 >= 4 {
+            check(out, "rounds-1", inst.transcript(), &stmt, Some(&bytes[..bytes.len() - 64]));
+        }
+        for d in 1..=6u8 {
+            if d as usize != t {
+                let mut b = bytes.clone();
+                b[0] = d;
+                check(out, "tag-only", inst.transcript(), &stmt, Some(&b));
+                // consistent re-encoding with d1 padded / truncated
+                let mut c = vec![d];
+                for k in 0..d as usize {
+                    if k < t {
+                        c.extend_from_slice(&bytes[1 + 32 * k..33 + 32 * k]);
+                    } else {
+                        c.extend_from_slice(&[0u8; 32]);
+                    }
+                }
+                c.extend_from_slice(&bytes[1 + 32 * t..]);
+                check(out, "tag-with-d1-resized", inst.transcript(), &stmt, Some(&c));
+            }
+        }
+        // --- statement fields
+        for j in 0..m {
+            let s2 = stmt_variant(&stmt, |s| {
+                s.commitments[j] = other_point(j as u64);
+                s.commitments_compressed[j] = s.commitments[j].compress();
+            });
+            check(out, &format!("commitment[{}]:replaced", j), inst.transcript(), &s2, None);
+            let s3 = stmt_variant(&stmt, |s| s.commitments_compressed[j] = other_point(j as u64 + 50).compress());
+            check(out, &format!("commitment[{}]:encoding-only", j), inst.transcript(), &s3, None);
+            let s4 = stmt_variant(&stmt, |s| s.commitments[j] = other_point(j as u64 + 70));
+            check(out, &format!("commitment[{}]:point-only", j), inst.transcript(), &s4, None);
+            let p = inst.promises[j].unwrap_or(0);
+            let max = if n == 64 { u64::MAX } else { (1u64 << n) - 1 };
+            for np in [p ^ 1, max, max.wrapping_add(1), p.wrapping_add(2) & max] {
+                if np != p && !(n == 64 && np == 0 && p == 0) {
+                    let s5 = stmt_variant(&stmt, |s| s.minimum_value_promises[j] = Some(np));
+                    check(out, &format!("promise[{}]", j), inst.transcript(), &s5, None);
+                }
+            }
+        }
+        if m >= 2 && stmt.commitments[0] != stmt.commitments[1] {
+            let s6 = stmt_variant(&stmt, |s| {
+                s.commitments.swap(0, 1);
+                s.commitments_compressed.swap(0, 1);
+            });
+            check(out, "commitment-order", inst.transcript(), &s6, None);
+        }
+        // generators: point and/or encoding
+        for k in 0..=t {
+            for mode in 0..3 {
+                let mut pg = pedersen(deg(t));
+                let np = other_point(900 + k as u64);
+                if k == t {
+                    if mode != 1 { pg.h_base = np.clone(); }
+                    if mode != 2 { pg.h_base_compressed = np.compress(); }
+                } else {
+                    if mode != 1 { pg.g_base_vec[k] = np.clone(); }
+                    if mode != 2 { pg.g_base_compressed_vec[k] = np.compress(); }
+                }
+                let pr = RangeParameters::init(n, cap, pg).unwrap();
+                let s7 = RangeStatement::init(pr, stmt.commitments.clone(), stmt.minimum_value_promises.clone(), stmt.seed_nonce).unwrap();
+                let what = format!("{}:{}", if k == t { "H".to_string() } else { format!("G[{}]", k) }, ["both", "encoding-only", "point-only"][mode]);
+                check(out, &what, inst.transcript(), &s7, None);
+            }
+        }
+        // bit length
+        for n2 in [1usize, 2, 4, 8, 16, 32, 64] {
+            if n2 != n {
+                let pr = params(n2, cap, t);
+                let s8 = RangeStatement::init(pr, stmt.commitments.clone(), stmt.minimum_value_promises.clone(), stmt.seed_nonce).unwrap();
+                check(out, "bit-length", inst.transcript(), &s8, None);
+            }
+        }
+        // transcript initial state
+        let mut i2 = inst.clone();
+        i2.ctx.push(0);
+        check(out, "context:extended", i2.transcript(), &stmt, None);
+        check(out, "context:other-label", Transcript::new(b"other"), &stmt, None);
+        let mut tr3 = inst.transcript();
+        tr3.append_message(b"extra", b"");
+        check(out, "context:extra-empty-message", tr3, &stmt, None);
+
+        // --- the same alterations inside a batch, with the altered member as the largest statement and not first
+        let small = random_inst(n, 1, cap.max(1), t, 9, false, &mut rng);
+        let small_stmt = small.statement();
+        let small_proof = small.prove(&mut rng).unwrap();
+        if m > 1 {
+            for k in 0..=t {
+                let mut pg = pedersen(deg(t));
+                let np = other_point(990 + k as u64);
+                if k == t {
+                    pg.h_base = np.clone();
+                    pg.h_base_compressed = np.compress();
+                } else {
+                    pg.g_base_vec[k] = np.clone();
+                    pg.g_base_compressed_vec[k] = np.compress();
+                }
+                let pr = RangeParameters::init(n, cap, pg).unwrap();
+                let s9 = RangeStatement::init(pr, stmt.commitments.clone(), stmt.minimum_value_promises.clone(), None).unwrap();
+                for order in 0..2 {
+                    let (mut ts, ss, ps) = if order == 0 {
+                        (vec![small.transcript(), inst.transcript()], vec![small_stmt.clone(), s9.clone()], vec![small_proof.clone(), proof.clone()])
+                    } else {
+                        (vec![inst.transcript(), small.transcript()], vec![s9.clone(), small_stmt.clone()], vec![proof.clone(), small_proof.clone()])
+                    };
+                    nmut += 1;
+                    classes.insert((n, m, t, "batch-generator".to_string()));
+                    match verify_caught(&mut ts, &ss, &ps, VerifyAction::VerifyOnly) {
+                        Err(()) => out.oracle("C05:no-panic", false, &key, "verify_batch panicked"),
+                        Ok(ok) => out.oracle("C05:altered-triple-rejected", !ok, &format!("{} mutate=batch-member-generator[{}] altered-member-position={}", key, k, 1 - order), "batch accepted with an altered commitment generator in one member"),
+                    }
+                }
+            }
+        }
+        if ci < 1 {
+            out.case(format!("systematic mutation of {}", key));
+        }
+    }
+    out.stat(&format!("mutations_{}", GROUP), nmut);
+    out.stat("distinct_classes", classes.len());
+}
